@@ -22,9 +22,6 @@ func register(id, explanation string, run func(*core.Ctx)) {
 	Registry[id] = &Rule{Run: run, Explanation: explanation}
 }
 
-// Thorough runs the extra work of the thorough tier.
-func Thorough(c *core.Ctx, r *Rule, repo string) {}
-
 func DumpFSM(p *core.Prog) {
 	f := p.ExtractFSM()
 	fmt.Println("events with rows:", len(f.Events), "rows:", len(f.Rows), "statuses:", len(f.Statuses), "event codes:", len(f.EventCodes))
